@@ -419,6 +419,16 @@ fn length(stream: Iter<u8>) -> Result<(usize, usize), Error> {
     Ok((len_len, len))
 }
 
+/// Parses a variable byte integer that lies inside an already complete frame (property
+/// lengths, subscription identifiers). Running out of bytes there means the packet is
+/// malformed; it must not be reported as "need more bytes" for a frame that was fully read.
+fn length_in_frame(stream: Iter<u8>) -> Result<(usize, usize), Error> {
+    length(stream).map_err(|e| match e {
+        Error::InsufficientBytes(_) => Error::MalformedPacket,
+        e => e,
+    })
+}
+
 /// Reads a series of bytes with a length from a byte stream
 fn read_mqtt_bytes(stream: &mut Bytes) -> Result<Bytes, Error> {
     let len = read_u16(stream)? as usize;
